@@ -373,3 +373,9 @@ impl Property for C03 {
 fn main() {
     engine::main::<C03>()
 }
+
+/// entry point of the libFuzzer target `fuzz/fuzz_targets/c03.rs`
+#[allow(dead_code)]
+pub fn fuzz(data: &[u8]) {
+    engine::fuzz_one::<C03>(data)
+}
